@@ -53,7 +53,7 @@ func TestC03Binary(t *testing.T) {
 		defer cancel()
 		host, err := dialWS(pp.addr, nodeIdent(0), 1)
 		if err != nil {
-			fail("[setup failed] dial: %v", err)
+			fail("%s", pp.dialFailure(err))
 		}
 		defer host.end("")
 		if err := host.connectHost(ctx); err != nil {
@@ -61,7 +61,7 @@ func TestC03Binary(t *testing.T) {
 		}
 		cli, err := dialWS(pp.addr, nodeIdent(2), 2)
 		if err != nil {
-			fail("[setup failed] dial: %v", err)
+			fail("%s", pp.dialFailure(err))
 		}
 		defer cli.end("")
 		creq := pool.ConnectRequest{VipnodeVersion: "verif", NodeInfo: ethnode.UserAgent{Version: "Geth/verif", Kind: ethnode.Geth, IsFullNode: false, Network: 1}}
